@@ -423,6 +423,45 @@ def machine_violation(machine, bucket, message, case):
 # known findings / replays / evidence / main
 # ---------------------------------------------------------------------
 
+def _confirm_child(prop, case):
+    """replay one generated failure in a fresh child: first in isolation, then after warm-up calls"""
+    mod = importlib.import_module("props." + prop.lower())
+    try:
+        msg = mod.replay(case)
+    except Exception:
+        return "replay function raised: " + traceback.format_exc()[-400:], ""
+    if msg is None and hasattr(mod, "warmup"):
+        try:
+            mod.warmup()
+            msg = mod.replay(case)
+        except Exception:
+            return "replay after warm-up raised: " + traceback.format_exc()[-400:], ""
+        if msg is not None:
+            return msg, " [reproduces only after other calls: behaviour depends on call history]"
+    return msg, ""
+
+
+def _replays_child(prop, witnesses):
+    try:
+        mod = importlib.import_module("props." + prop.lower())
+        out = {"known": [], "reg": []}
+        for w in witnesses:
+            out["known"].append(mod.replay(w))
+        rdir = os.path.join(ROOT, "replays", prop)
+        if os.path.isdir(rdir):
+            for fn in sorted(os.listdir(rdir)):
+                if fn.startswith("reg-") and fn.endswith(".json"):
+                    with open(os.path.join(rdir, fn)) as f:
+                        rec = json.load(f)
+                    msg = mod.replay(rec["case"])
+                    if not msg and hasattr(mod, "warmup"):
+                        pass
+                    out["reg"].append((os.path.join(rdir, fn), rec.get("bucket", "regression"), msg))
+        return out
+    except BaseException:
+        return {"error": traceback.format_exc()}
+
+
 def load_known(prop):
     path = os.path.join(ROOT, "KNOWN_FINDINGS.json")
     if not os.path.exists(path):
@@ -549,10 +588,16 @@ def main(argv=None):
     clean_found(prop)
     violations = []
     try:
-        # 1. known findings: replay each witness, report while it still fails
+        # Witness and regression replays run in a forked child: the coordinating process must not have called into the
+        # library before the workers are forked (state carried between calls would otherwise be inherited by all of them).
+        mp = multiprocessing.get_context("fork")
+        with mp.Pool(1) as pool:
+            rep = pool.apply(_replays_child, (prop, [k["witness"] for k in known]))
+        if "error" in rep:
+            raise HarnessError("replay process failed:\n" + rep["error"])
+        # 1. known findings: report while the witness still fails
         known_buckets = []
-        for k in known:
-            msg = mod.replay(k["witness"])
+        for k, msg in zip(known, rep["known"]):
             if msg:
                 print(f"KNOWN-FINDING: property={prop} {k['what']}")
                 known_buckets.append(k["bucket"])
@@ -560,21 +605,10 @@ def main(argv=None):
                 print(f"note: known finding no longer reproduces: {k['what']}")
         ctx = Ctx(prop, a.tier, seed, known_buckets)
         # 2. committed regression inputs (must pass)
-        rdir = os.path.join(ROOT, "replays", prop)
-        nreg = 0
-        if os.path.isdir(rdir):
-            for fn in sorted(os.listdir(rdir)):
-                if fn.startswith("reg-") and fn.endswith(".json"):
-                    with open(os.path.join(rdir, fn)) as f:
-                        rec = json.load(f)
-                    msg = mod.replay(rec["case"])
-                    nreg += 1
-                    if msg:
-                        b = rec.get("bucket", "regression")
-                        if b in ctx.known_buckets:
-                            continue
-                        violations.append((b, os.path.relpath(os.path.join(rdir, fn), ROOT), msg))
-        ctx.engine("regression-replays", files=nreg)
+        for fn, b, msg in rep["reg"]:
+            if msg and b not in ctx.known_buckets:
+                violations.append((b, os.path.relpath(fn, ROOT), msg))
+        ctx.engine("regression-replays", files=len(rep["reg"]))
         # 3. generated search
         mod.run(ctx)
     except HarnessError as e:
@@ -588,22 +622,9 @@ def main(argv=None):
 
     for bucket, f in ctx.failures.items():
         # confirm with the plain replay function (bypasses the generator library)
-        confirmed = None
-        try:
-            confirmed = mod.replay(f["case"])
-        except Exception:
-            confirmed = "replay function raised: " + traceback.format_exc()[-400:]
-        note = ""
-        if confirmed is None and hasattr(mod, "warmup"):
-            # state carried between calls (a cache filled by other rules / earlier operations): exercise the library
-            # the way a long run does, then replay again in this process
-            try:
-                mod.warmup()
-                confirmed = mod.replay(f["case"])
-            except Exception:
-                confirmed = "replay after warm-up raised: " + traceback.format_exc()[-400:]
-            if confirmed is not None:
-                note = " [reproduces only after other calls: behaviour depends on call history]"
+        mp = multiprocessing.get_context("fork")
+        with mp.Pool(1) as pool:
+            confirmed, note = pool.apply(_confirm_child, (prop, f["case"]))
         if confirmed is None:
             # the harness is deterministic and quiet on the unchanged tree, so a failure that the isolated case does
             # not reproduce means the library answered differently depending on what ran before in that process
